@@ -14,9 +14,10 @@
    Method: structural induction on [e] with the "level / follow set" generalisation packaged in
    [Parses].  The obligations that cannot be discharged are exactly [bad_child], i.e. the table
    [Shape.bad_pair] (Syntax/ShapeProofs.v), each entry of which is refuted in Syntax/Refuted.v. *)
+From Coq Require Import Wf_nat.
 From IronCalc Require Import Base.Prelude Codec.RefA1 Syntax.Token Syntax.Ast Syntax.Printer Syntax.Parser
   Syntax.Shape Syntax.GlueProofs Syntax.RoundTripLevels Syntax.RoundTripNodes Syntax.RoundTripArgs Syntax.RoundTripLeaves
-  Syntax.RoundTripArrays.
+  Syntax.RoundTripArrays Syntax.RoundTripLambda.
 Local Open Scope nat_scope.
 
 Ltac split_and :=
@@ -28,7 +29,11 @@ Section Main.
   Variable m : pmode.
   Variable nm : names.
   Variable env : penv.
-  Notation pr := (print m nm).
+  Variable pol : policy.
+  (* the policy does not parenthesise a number literal under a unary minus (array elements "-1") *)
+  Hypothesis Hneg_num : forall n, pol_neg pol (ENum n) = false.
+
+  Notation pr := (gprint m nm pol).
   Notation xl := (pm_xlsx m).
   Notation pexpr := (p_expr m nm env).
   Notation PS := (Parses m nm env).
@@ -61,11 +66,11 @@ Section Main.
   Qed.
 
   Lemma child_head c b :
-    image_at m nm env false c = true -> fragment c = true -> no_bad xl c = true ->
+    image_at m nm env false c = true -> fragment c = true -> no_bad_with pol xl c = true ->
     (b = false -> rank_x xl c <= 2) -> forall rest, not_sign (wrap b (pr c) ++ rest).
   Proof.
     intros Hi Hf Hb Hq rest. destruct b; cbn [wrap]; [exact I|].
-    eapply head_not_sign; [apply Hq; reflexivity|]. apply (heads m nm env); assumption.
+    eapply head_not_sign; [apply Hq; reflexivity|]. apply (heads m nm env pol); assumption.
   Qed.
 
   (* ---- leaves ----------------------------------------------------------------------------- *)
@@ -117,12 +122,12 @@ Section Main.
   Qed.
 
   Lemma args_good (args : list ast) g :
-    Forall (fun a => image_at m nm env false a = true -> fragment a = true -> no_bad xl a = true ->
+    Forall (fun a => image_at m nm env false a = true -> fragment a = true -> no_bad_with pol xl a = true ->
                      lower_stable nm a = true -> good a) args ->
     forallb (image_at m nm env true) args = true -> forallb fragment args = true ->
-    forallb (no_bad xl) args = true -> forallb (lower_stable nm) args = true ->
+    forallb (no_bad_with pol xl) args = true -> forallb (lower_stable nm) args = true ->
     fold_right (fun a n => size a + n) 0 args + 1 < g ->
-    Forall (arg_good m nm (pexpr g)) args.
+    Forall (arg_good m nm pol (pexpr g)) args.
   Proof.
     intros HF. induction HF as [|a tl Ha _ IH]; intros Hi Hf Hb Hl Hg; [constructor|].
     cbn [forallb fold_right] in *. split_and. constructor.
@@ -131,7 +136,7 @@ Section Main.
         assert (Hne : a <> EEmpty) by discriminate;
         rewrite (image_arg _ Hne) in *;
         split;
-        [ destruct (heads m nm env a) as (t & r & E & Hs & _); try assumption;
+        [ destruct (heads m nm env pol a) as (t & r & E & Hs & _); try assumption;
           exists t, r; split; [exact E|apply startb_start; exact Hs]
         | intros rest' Hfo; apply rec_closed; [apply Ha; assumption| |exact Hfo] ] end.
       all: cbn [size fold_right] in *; lia.
@@ -153,7 +158,7 @@ Section Main.
   Lemma good_bool b : good (EBool b).
   Proof.
     apply good_primary; [reflexivity|apply single_heads; reflexivity|].
-    intros g f rest _ _ Hfo. apply no_lparen in Hfo. cbn [print app p_primary].
+    intros g f rest _ _ Hfo. apply no_lparen in Hfo. cbn [gprint app p_primary].
     destruct rest as [|t r]; [reflexivity|]. destruct t; try reflexivity. contradiction.
   Qed.
   Lemma good_num n : good (ENum n).
@@ -164,17 +169,17 @@ Section Main.
   Proof.
     intro Hi. unfold is_terror in Hi. destruct (err_tokens nm k) as [|t l] eqn:E; [discriminate|].
     destruct t; try discriminate. destruct l; [|discriminate]. apply Z.eqb_eq in Hi. subst e.
-    assert (Hp : pr (EErr k) = [TError k]) by (cbn [print]; exact E).
+    assert (Hp : pr (EErr k) = [TError k]) by (cbn [gprint]; exact E).
     apply good_primary; [reflexivity|rewrite Hp; apply single_heads; reflexivity|].
     intros g f rest _ _ _. rewrite Hp. reflexivity.
   Qed.
 
   Lemma good_neg c :
-    good c -> (neg_parens c = false -> rank_x xl c <= 2) ->
-    (forall rest, not_sign (wrap (neg_parens c) (pr c) ++ rest)) -> good (ENeg c).
+    good c -> (pol_neg pol c = false -> rank_x xl c <= 2) ->
+    (forall rest, not_sign (wrap (pol_neg pol c) (pr c) ++ rest)) -> good (ENeg c).
   Proof.
-    intros Hc Hq Hh g Hg. cbn [size] in Hg. change (rank_x xl (ENeg c)) with 3. cbn [print size].
-    assert (P : PS (pexpr g) (S (size c)) (wrap (neg_parens c) (pr c)) c 2).
+    intros Hc Hq Hh g Hg. cbn [size] in Hg. change (rank_x xl (ENeg c)) with 3. cbn [gprint size].
+    assert (P : PS (pexpr g) (S (size c)) (wrap (pol_neg pol c) (pr c)) c 2).
     { apply child_parses; try lia; assumption. }
     apply Parses_of_tight; [lia|intro; lia|intro; lia|intro; lia|].
     intros f rest Hfu Hfo. cbn [app]. unfold p_power. cbn [skip_signs negb].
@@ -186,7 +191,7 @@ Section Main.
   Proof.
     destruct a as [b|[|] n|s|k|]; cbn [ast_of_aelem aelem_ok]; intro H; try discriminate.
     - apply good_bool.
-    - apply good_neg; [apply good_num|intros _; cbn; lia|intro rest; exact I].
+    - apply good_neg; [apply good_num|intros _; cbn; lia|intro rest; rewrite Hneg_num; exact I].
     - apply good_num.
     - apply good_str.
     - apply good_err; exact H.
@@ -198,7 +203,7 @@ Section Main.
   Lemma rec_elem_ok g : 4 <= g -> forall a rest, aelem_ok nm a = true -> follow 8 rest ->
     pexpr g (print_aelem nm a ++ rest) = Some (ast_of_aelem a, rest).
   Proof.
-    intros Hg a rest Ha Hfo. rewrite <- (print_ast_of_aelem m nm a).
+    intros Hg a rest Ha Hfo. rewrite <- (print_ast_of_aelem m nm pol Hneg_num a).
     apply rec_closed; [apply good_elem; exact Ha|pose proof (size_elem a); lia|exact Hfo].
   Qed.
 
@@ -219,77 +224,145 @@ Section Main.
     length r0 <= fold_right (fun r n => length r + n) 0 (r0 :: rs).
   Proof. cbn [fold_right]. lia. Qed.
 
+  (* ---- LAMBDA ------------------------------------------------------------------------------- *)
+  Lemma rec_ident_ok g : 2 <= g -> forall n rest, ident_free nm env n = true -> follow 8 rest ->
+    pexpr g (TIdent n :: rest) = Some (EVar (trim_start t_xlpm n) None, rest).
+  Proof.
+    intros Hg n rest Hfree Hfo. destruct g as [|g']; [lia|]. cbn [p_expr].
+    assert (P : PS (pexpr g') 0 [TIdent n] (EVar (trim_start t_xlpm n) None) 0).
+    { apply Parses_of_primary; [intro r; split; exact I|].
+      intros f r _ Hf0. cbn [app]. rewrite ident_primary by exact Hf0.
+      unfold ident_free in Hfree. destruct (sheet_index env None) as [ci|]; [|discriminate].
+      destruct (get_defined_name nm env n ci); [discriminate|]. apply negb_true_iff in Hfree. rewrite Hfree. reflexivity. }
+    exact (Parses_closed m nm env (pexpr g') 0 [TIdent n] _ 0 P 5 ltac:(lia) ltac:(lia) g' rest ltac:(lia) Hfo).
+  Qed.
+
+  Definition lambda_name : text := if xl then t_xlfn_lambda else t_lambda.
+
+  Lemma lambda_tokens ps body rest :
+    pr (ELambdaDef ps body) ++ rest
+    = TIdent lambda_name :: TLParen :: lam_tokens m (pr body) ps rest.
+  Proof.
+    cbn [gprint app]. unfold lambda_name. rewrite <- app_assoc. cbn [app].
+    rewrite <- (join_items m (pr body) ps rest). reflexivity.
+  Qed.
+
+  Lemma lambda_parse g fu ps body rest :
+    good body -> image_at m nm env false body = true -> fragment body = true -> no_bad_with pol xl body = true ->
+    lambda_name_ok m nm = true -> forallb (param_ok m nm env) ps = true ->
+    S (length ps + size body) < g -> length ps < fu ->
+    parse_call m nm (pexpr g) fu lambda_name (lam_tokens m (pr body) ps rest) =
+    match rest with
+    | TLParen :: r =>
+      match args_then_rparen m (pexpr g) fu r with
+      | Some (args, r') => Some (ELambdaCall (ELambdaDef ps body) args, r')
+      | None => None
+      end
+    | _ => Some (ELambdaDef ps body, rest)
+    end.
+  Proof.
+    intros Hgood Hi Hf Hb Hname Hps Hg Hfu.
+    destruct (heads m nm env pol body Hi Hf Hb) as (t & r & E & Hs & _).
+    assert (Hcond : text_eqb lambda_name t_xlfn_lambda || text_eqb (nm_upper nm lambda_name) t_lambda = true).
+    { unfold lambda_name, lambda_name_ok in *. destruct xl; [reflexivity|]. cbn [orb] in Hname. rewrite Hname. apply orb_true_r. }
+    unfold parse_call. rewrite Hcond. unfold parse_lambda.
+    assert (Hloop : lambda_loop m (pexpr g) fu [] (lam_tokens m (pr body) ps rest) = Some (ps, body, rest)).
+    { apply (lambda_loop_ok m nm env (pexpr g) (rec_ident_ok g ltac:(lia)) body (pr body)); try assumption.
+      - exists t, r. split; [exact E|]. apply startb_not_lbracket; exact Hs.
+      - intros rest' Hfo. apply rec_closed; [exact Hgood|lia|exact Hfo]. }
+    pose proof (lam_tokens_not_rparen m (pr body) ps rest
+                  ltac:(exists t, r; split; [exact E|apply startb_start in Hs; apply Hs])) as Hnr.
+    destruct (lam_tokens m (pr body) ps rest) as [|t0 r0] eqn:Et.
+    - rewrite Hloop. destruct rest as [|tkx rsx]; [reflexivity|]. destruct tkx; reflexivity.
+    - destruct t0; try contradiction; rewrite Hloop; (destruct rest as [|tkx rsx]; [reflexivity|]; destruct tkx; reflexivity).
+  Qed.
+
   (* ---- the induction ---------------------------------------------------------------------- *)
   Theorem good_all e :
-    image_at m nm env false e = true -> fragment e = true -> no_bad xl e = true ->
+    image_at m nm env false e = true -> fragment e = true -> no_bad_with pol xl e = true ->
     lower_stable nm e = true -> good e.
   Proof.
-    induction e using ast_rect'; intros Hi Hf Hb Hl;
-      cbn [image_at fragment no_bad lower_stable] in Hi, Hf, Hb, Hl; try discriminate; split_and.
+    remember (size e) as n0 eqn:Hn0. revert e Hn0.
+    induction n0 as [n0 IH] using lt_wf_ind. intros e Hn0.
+    assert (IHc : forall c, size c < size e -> image_at m nm env false c = true -> fragment c = true ->
+                  no_bad_with pol xl c = true -> lower_stable nm c = true -> good c).
+    { intros c Hc. apply (IH (size c)); [lia|reflexivity]. }
+    clear IH Hn0 n0.
+    destruct e as [b|n|s|s i p|s i p q|e1 e2|e1 e2|op e1 e2|op e1 e2|e1 e2|f args|ps e|e args|id name args|rows|n s f|n|n i|a e|e|op e1 e2|e|e|e| | ].
+    all: try (assert (IHe1 := IHc e1 ltac:(cbn [size]; lia)); assert (IHe2 := IHc e2 ltac:(cbn [size]; lia))).
+    all: try (assert (IHe := IHc e ltac:(cbn [size]; lia))).
+    all: try (assert (HFA : Forall (fun a => image_at m nm env false a = true -> fragment a = true -> no_bad_with pol xl a = true ->
+                                    lower_stable nm a = true -> good a) args)
+                by (apply Forall_forall; intros a0 Hin; apply IHc; pose proof (size_in_args a0 args Hin); cbn [size]; lia)).
+    all: intros Hi Hf Hb Hl; cbn [image_at fragment no_bad_with lower_stable] in Hi, Hf, Hb, Hl; try discriminate; split_and.
     - (* EBool *) apply good_bool.
     - (* ENum *) apply good_num.
     - (* EStr *) apply good_str.
     - (* ERef *) unfold pref_ok in *. destruct (print_pref m p) as [q|] eqn:E; [|discriminate].
-      assert (Hp : pr (ERef s i p) = [TReference s q]) by (cbn [print]; unfold print_ref; rewrite E; reflexivity).
+      assert (Hp : pr (ERef s i p) = [TReference s q]) by (cbn [gprint]; unfold print_ref; rewrite E; reflexivity).
       apply good_primary; [reflexivity|rewrite Hp; apply single_heads; reflexivity|].
       intros g f rest _ _ _. rewrite Hp. cbn [app p_primary]. rewrite (parse_print_pref m _ _ E).
       destruct i as [i|], (sheet_index env s) as [j|]; cbn [opt_z_eqb] in *; try discriminate; [|reflexivity].
       match goal with H : (i =? j)%Z = true |- _ => apply Z.eqb_eq in H; subst end. reflexivity.
     - (* ERange *) match goal with H : range_ok m p q = true |- _ => destruct (parse_range_ok m p q H) as (q1 & q2 & E1 & E2 & E3) end.
-      assert (Hp : pr (ERange s i p q) = [TRange s q1 q2]) by (cbn [print]; unfold print_range; rewrite E1, E2; reflexivity).
+      assert (Hp : pr (ERange s i p q) = [TRange s q1 q2]) by (cbn [gprint]; unfold print_range; rewrite E1, E2; reflexivity).
       apply good_primary; [reflexivity|rewrite Hp; apply single_heads; reflexivity|].
       intros g f rest _ _ _. rewrite Hp. cbn [app p_primary]. rewrite E3.
       destruct i as [i|], (sheet_index env s) as [j|]; cbn [opt_z_eqb] in *; try discriminate; [|reflexivity].
       match goal with H : (i =? j)%Z = true |- _ => apply Z.eqb_eq in H; subst end. reflexivity.
     - (* ERangeOp *)
-      negb_false. match goal with H : bad_child _ _ = false |- _ => cbn [bad_child] in H; apply orb_false_iff in H as [Hrl Hrr] end.
-      apply ltb_false in Hrl, Hrr.
-      intros g Hg. cbn [size] in Hg. change (rank_x xl (ERangeOp e1 e2)) with 2. cbn [print size].
-      assert (P1 : PS (pexpr g) (S (size e1 + size e2)) (pr e1) e1 1).
-      { eapply Parses_weaken; [exact Hrl|]. eapply Parses_weaken_n; [|apply IHe1; try assumption; lia]. lia. }
-      assert (P2 : PS (pexpr g) (S (size e1 + size e2)) (pr e2) e2 0).
-      { eapply Parses_weaken; [exact Hrr|]. eapply Parses_weaken_n; [|apply IHe2; try assumption; lia]. lia. }
+      negb_false. match goal with H : bad_child_with _ _ _ = false |- _ => cbn [bad_child_with] in H; apply orb_false_iff in H as [Hrl Hrr] end.
+      intros g Hg. cbn [size] in Hg. change (rank_x xl (ERangeOp e1 e2)) with 2. cbn [gprint size].
+      assert (Hql : pol_range_l pol e1 = false -> rank_x xl e1 <= 1).
+      { intro E. rewrite E in Hrl. cbn [negb andb] in Hrl. apply ltb_false in Hrl. exact Hrl. }
+      assert (Hqr : pol_range_r pol xl e2 = false -> rank_x xl e2 <= 0).
+      { intro E. rewrite E in Hrr. cbn [negb andb] in Hrr. apply ltb_false in Hrr. exact Hrr. }
+      assert (P1 : PS (pexpr g) (S (size e1 + size e2)) (wrap (pol_range_l pol e1) (pr e1)) e1 1).
+      { apply child_parses; try lia; [apply IHe1; assumption|exact Hql]. }
+      assert (P2 : PS (pexpr g) (S (size e1 + size e2)) (wrap (pol_range_r pol xl e2) (pr e2)) e2 0).
+      { apply child_parses; try lia; [apply IHe2; assumption|exact Hqr]. }
       assert (A2 : forall f rest, S (size e1 + size e2) < f -> follow 2 rest ->
-                 p_range m nm env (pexpr g) f ((pr e1 ++ TColon :: pr e2) ++ rest) = Some (ERangeOp e1 e2, rest)).
+                 p_range m nm env (pexpr g) f ((wrap (pol_range_l pol e1) (pr e1) ++ TColon :: wrap (pol_range_r pol xl e2) (pr e2)) ++ rest)
+                 = Some (ERangeOp e1 e2, rest)).
       { intros f rest Hfu Hfo. rewrite app_cons_assoc. unfold p_range.
         rewrite (ps_implicit _ _ _ _ _ _ _ _ P1 ltac:(lia) f _ Hfu) by (cbn [follow cont_level]; lia).
         rewrite (ps_primary _ _ _ _ _ _ _ _ P2 ltac:(lia) f _ Hfu) by (eapply follow_mono; [|exact Hfo]; lia).
         reflexivity. }
       apply Parses_of_tight; [lia|intro; lia|intro; lia|intros _; exact A2|].
       intros f rest Hfu Hfo. apply lift_power; [|apply A2; assumption].
-      rewrite <- app_assoc. eapply head_not_sign; [|apply (heads m nm env); eassumption]. lia.
+      rewrite <- app_assoc. apply child_head; try assumption. intro E. specialize (Hql E). lia.
     - (* EConcat *)
-      negb_false. match goal with H : bad_child _ _ = false |- _ => cbn [bad_child] in H; apply orb_false_iff in H as [Hrl Hrr] end.
-      apply ltb_false in Hrl, Hrr.
+      negb_false. match goal with H : bad_child_with _ _ _ = false |- _ => cbn [bad_child_with] in H; apply orb_false_iff in H as [Hrl Hrr] end.
       intros g Hg. cbn [size] in Hg.
-      apply (Parses_binary m nm env (pexpr g) 4 BConcat TAnd (size e1) (size e2) (pr e1) (pr e2) e1 e2); try reflexivity; try lia.
-      + eapply Parses_weaken; [|apply IHe1; try assumption; lia]. exact Hrl.
-      + eapply Parses_weaken; [|apply IHe2; try assumption; lia]. exact Hrr.
+      apply (Parses_binary m nm env (pexpr g) 4 BConcat TAnd (size e1) (size e2)
+               (wrap (pol_concat_l pol e1) (pr e1)) (wrap (pol_concat_r pol e2) (pr e2)) e1 e2); try reflexivity; try lia.
+      + apply child_parses; try lia; [apply IHe1; assumption|]. intro E. rewrite E in Hrl. cbn [negb andb] in Hrl. apply ltb_false in Hrl. exact Hrl.
+      + apply child_parses; try lia; [apply IHe2; assumption|]. intro E. rewrite E in Hrr. cbn [negb andb] in Hrr. apply ltb_false in Hrr. exact Hrr.
     - (* ESum *)
-      negb_false. match goal with H : bad_child _ _ = false |- _ => cbn [bad_child] in H; apply orb_false_iff in H as [Hrl Hrr] end.
+      negb_false. match goal with H : bad_child_with _ _ _ = false |- _ => cbn [bad_child_with] in H; apply orb_false_iff in H as [Hrl Hrr] end.
       intros g Hg. cbn [size] in Hg.
       apply (Parses_binary m nm env (pexpr g) 3 (BSum op) (TAddition op) (size e1) (size e2)
-               (wrap (sum_left_parens e1) (pr e1)) (wrap (sum_right_parens op e2) (pr e2)) e1 e2); try reflexivity; try lia.
+               (wrap (pol_sum_l pol e1) (pr e1)) (wrap (pol_sum_r pol op e2) (pr e2)) e1 e2); try reflexivity; try lia.
       + apply child_parses; try lia; [apply IHe1; assumption|]. intro E. rewrite E in Hrl. cbn [negb andb] in Hrl. apply ltb_false in Hrl. exact Hrl.
       + apply child_parses; try lia; [apply IHe2; assumption|]. intro E. rewrite E in Hrr. cbn [negb andb] in Hrr. apply ltb_false in Hrr. exact Hrr.
     - (* EProd *)
-      negb_false. match goal with H : bad_child _ _ = false |- _ => cbn [bad_child] in H; apply orb_false_iff in H as [Hrl Hrr] end.
+      negb_false. match goal with H : bad_child_with _ _ _ = false |- _ => cbn [bad_child_with] in H; apply orb_false_iff in H as [Hrl Hrr] end.
       intros g Hg. cbn [size] in Hg.
       apply (Parses_binary m nm env (pexpr g) 2 (BProd op) (TProduct op) (size e1) (size e2)
-               (wrap (prod_left_parens e1) (pr e1)) (wrap (prod_right_parens e2) (pr e2)) e1 e2); try reflexivity; try lia.
+               (wrap (pol_prod_l pol e1) (pr e1)) (wrap (pol_prod_r pol e2) (pr e2)) e1 e2); try reflexivity; try lia.
       + apply child_parses; try lia; [apply IHe1; assumption|]. intro E. rewrite E in Hrl. cbn [negb andb] in Hrl. apply ltb_false in Hrl. exact Hrl.
       + apply child_parses; try lia; [apply IHe2; assumption|]. intro E. rewrite E in Hrr. cbn [negb andb] in Hrr. apply ltb_false in Hrr. exact Hrr.
     - (* EPow *)
-      negb_false. match goal with H : bad_child _ _ = false |- _ => cbn [bad_child] in H; apply orb_false_iff in H as [Hrl Hrr] end.
+      negb_false. match goal with H : bad_child_with _ _ _ = false |- _ => cbn [bad_child_with] in H; apply orb_false_iff in H as [Hrl Hrr] end.
       intros g Hg. cbn [size] in Hg.
       apply (Parses_binary m nm env (pexpr g) 1 BPow TPower (size e1) (size e2)
-               (wrap (pow_left_parens e1) (pr e1)) (wrap (pow_right_parens e2) (pr e2)) e1 e2); try reflexivity; try lia.
+               (wrap (pol_pow_l pol e1) (pr e1)) (wrap (pol_pow_r pol e2) (pr e2)) e1 e2); try reflexivity; try lia.
       + apply child_parses; try lia; [apply IHe1; assumption|]. intro E. rewrite E in Hrl. cbn [negb andb] in Hrl. apply ltb_false in Hrl. exact Hrl.
       + apply child_parses; try lia; [apply IHe2; assumption|]. intro E. rewrite E in Hrr. cbn [negb andb] in Hrr. apply ltb_false in Hrr. exact Hrr.
     - (* EFun *)
       apply good_primary; [reflexivity| |].
-      { intro rest. cbn [print]. destruct (bool_of_name nm (fn_name nm f)); split; exact I. }
-      intros g fu rest Hg Hfu _. cbn [size] in Hg, Hfu. cbn [print]. rewrite call_tokens.
+      { intro rest. cbn [gprint]. destruct (bool_of_name nm (fn_name nm f)); split; exact I. }
+      intros g fu rest Hg Hfu _. cbn [size] in Hg, Hfu. cbn [gprint]. rewrite call_tokens.
       assert (HA : args_then_rparen m (pexpr g) fu (join (sep_token (parse_arg_sep m)) (map pr args) ++ TRParen :: rest) = Some (args, rest)).
       { apply args_then_rparen_ok; [pose proof (length_le_sizes args); lia|assumption|].
         eapply args_good; try eassumption. lia. }
@@ -303,11 +376,29 @@ Section Main.
         * match goal with H : (k =? f)%Z = true |- _ => apply Z.eqb_eq in H; subst end. reflexivity.
         * destruct (fn_lookup nm (trim_start t_xlfn (fn_name nm f))) as [k|]; [|discriminate].
           match goal with H : (k =? f)%Z = true |- _ => apply Z.eqb_eq in H; subst end. reflexivity.
+    - (* ELambdaDef *)
+      apply good_primary; [reflexivity|intro rest; cbn [gprint]; split; exact I|].
+      intros g fu rest Hg Hfu Hfo. cbn [size] in Hg, Hfu. rewrite lambda_tokens. cbn [p_primary].
+      rewrite (lambda_parse g fu ps e rest) by (try assumption; try lia; apply IHe; assumption).
+      apply no_lparen in Hfo. destruct rest as [|t1 r1]; [reflexivity|]. destruct t1; try reflexivity. contradiction.
+    - (* ELambdaCall *)
+      destruct e as [ | | | | | | | | | | |ps body| | | | | | | | | | | | | | ]; try discriminate.
+      cbn [image_at fragment no_bad_with lower_stable] in *. split_and.
+      assert (IHbody := IHc body ltac:(cbn [size]; lia)).
+      apply good_primary; [reflexivity|intro rest; cbn [gprint]; split; exact I|].
+      intros g fu rest Hg Hfu Hfo. cbn [size] in Hg, Hfu.
+      assert (Etok : pr (ELambdaCall (ELambdaDef ps body) args) ++ rest
+                     = pr (ELambdaDef ps body) ++ (TLParen :: join (sep_token (parse_arg_sep m)) (map pr args) ++ TRParen :: rest)).
+      { cbn [gprint]. rewrite <- !app_assoc. cbn [app]. rewrite <- !app_assoc. reflexivity. }
+      rewrite Etok. rewrite lambda_tokens. cbn [p_primary].
+      rewrite (lambda_parse g fu ps body) by (try assumption; try lia; apply IHbody; assumption).
+      rewrite args_then_rparen_ok; [reflexivity|pose proof (length_le_sizes args); lia|assumption|].
+      eapply args_good; try eassumption. lia.
     - (* ENamedFun *)
       destruct id; [discriminate|].
       match goal with H : text_eqb (nm_lower nm name) name = true |- _ => apply text_eqb_eq in H; rename H into Hlow end.
       apply good_primary; [reflexivity|intro rest; split; exact I|].
-      intros g fu rest Hg Hfu _. cbn [size] in Hg, Hfu. cbn [print]. rewrite call_tokens. rewrite Hlow.
+      intros g fu rest Hg Hfu _. cbn [size] in Hg, Hfu. cbn [gprint]. rewrite call_tokens. rewrite Hlow.
       assert (HA : args_then_rparen m (pexpr g) fu (join (sep_token (parse_arg_sep m)) (map pr args) ++ TRParen :: rest) = Some (args, rest)).
       { apply args_then_rparen_ok; [pose proof (length_le_sizes args); lia|assumption|].
         eapply args_good; try eassumption. lia. }
@@ -323,7 +414,7 @@ Section Main.
       destruct rows as [|r0 rs]; [discriminate|]. split_and.
       apply good_primary; [reflexivity|intro rest; split; exact I|].
       intros g fu rest Hg Hfu _. cbn [size] in Hg, Hfu. pose proof (fold_lengths_ge r0 rs) as Hfl.
-      cbn [print app]. rewrite <- app_assoc. cbn [app].
+      cbn [gprint app]. rewrite <- app_assoc. cbn [app].
       apply (array_primary_ok m nm env (pexpr g) (rec_elem_ok g ltac:(cbn [length] in Hg; lia)) rest r0 rs fu).
       + match goal with H : pm_dot m || _ = true |- _ => apply orb_true_iff in H as [H|H]; [left; exact H|right] end.
         cbn [length] in *. destruct rs; [reflexivity|discriminate].
@@ -331,7 +422,7 @@ Section Main.
       + apply rows_ok; assumption.
     - (* EDefName *)
       apply good_primary; [reflexivity|apply single_heads; reflexivity|].
-      intros g fu rest _ _ Hfo. cbn [print app]. rewrite ident_primary by exact Hfo.
+      intros g fu rest _ _ Hfo. cbn [gprint app]. rewrite ident_primary by exact Hfo.
       destruct (sheet_index env None) as [ci|]; [|discriminate].
       destruct (get_defined_name nm env n ci) as [[sc fo]|]; [|discriminate]. split_and.
       match goal with H : text_eqb f fo = true |- _ => apply text_eqb_eq in H; subst end.
@@ -339,13 +430,13 @@ Section Main.
       match goal with H : (s =? sc)%Z = true |- _ => apply Z.eqb_eq in H; subst end. reflexivity.
     - (* ETable *)
       apply good_primary; [reflexivity|apply single_heads; reflexivity|].
-      intros g fu rest _ _ Hfo. cbn [print app]. rewrite ident_primary by exact Hfo.
+      intros g fu rest _ _ Hfo. cbn [gprint app]. rewrite ident_primary by exact Hfo.
       destruct (sheet_index env None) as [ci|]; [|discriminate].
       destruct (get_defined_name nm env n ci); [discriminate|]. rewrite Hi. reflexivity.
     - (* EVar *)
       destruct i; [discriminate|].
       apply good_primary; [reflexivity|apply single_heads; reflexivity|].
-      intros g fu rest _ _ Hfo. cbn [print app]. rewrite ident_primary by exact Hfo.
+      intros g fu rest _ _ Hfo. cbn [gprint app]. rewrite ident_primary by exact Hfo.
       unfold var_ok in *. destruct (sheet_index env None) as [ci|]; [|discriminate].
       destruct (get_defined_name nm env n ci); [discriminate|]. split_and. negb_false.
       match goal with H : is_table nm env n = false |- _ => rewrite H end.
@@ -353,12 +444,12 @@ Section Main.
       reflexivity.
     - (* EAt *)
       negb_false. subst a. unfold xl_call_ok in *.
-      match goal with H : bad_child _ _ = false |- _ => cbn [bad_child] in H; rename H into Hr end.
+      match goal with H : bad_child_with _ _ _ = false |- _ => cbn [bad_child_with] in H; rename H into Hr end.
       destruct xl eqn:Hx; cbn [negb andb orb] in *.
       + (* xlsx form: _xlfn.SINGLE(e) *)
         negb_false.
-        apply good_primary; [rewrite Hx; reflexivity|intro rest; cbn [print]; rewrite Hx; split; exact I|].
-        intros g fu rest Hg Hfu _. cbn [size] in Hg, Hfu. cbn [print]. rewrite Hx.
+        apply good_primary; [rewrite Hx; reflexivity|intro rest; cbn [gprint]; rewrite Hx; split; exact I|].
+        intros g fu rest Hg Hfu _. cbn [size] in Hg, Hfu. cbn [gprint]. rewrite Hx.
         assert (HA : args_then_rparen m (pexpr g) fu (join (sep_token (parse_arg_sep m)) (map pr [e]) ++ TRParen :: rest) = Some ([e], rest)).
         { apply args_then_rparen_ok; [cbn [length]; lia|destruct e; try reflexivity; discriminate|].
           eapply args_good with (args := [e]).
@@ -372,28 +463,30 @@ Section Main.
         match goal with H : text_eqb (nm_upper nm t_xlfn_single) t_lambda = false |- _ => rewrite H end.
         change (text_eqb t_xlfn_single t_xlfn_lambda) with false. cbn [orb].
         rewrite HA. change (text_eqb t_xlfn_single t_xlfn_single) with true. reflexivity.
-      + apply ltb_false in Hr.
-        intros g Hg. cbn [size] in Hg. rewrite Hx. change (rank_x false (EAt false e)) with 1. cbn [print size]. rewrite Hx.
-        assert (P : PS (pexpr g) (S (size e)) (pr e) e 0).
-        { eapply Parses_weaken; [exact Hr|]. eapply Parses_weaken_n; [|rewrite <- Hx; apply IHe; try assumption; try lia; rewrite Hx; assumption]. lia. }
+      + assert (Hq : pol_at pol e = false -> rank_x xl e <= 0).
+        { intro E. rewrite E in Hr. cbn [negb andb] in Hr. apply ltb_false in Hr. rewrite Hx. exact Hr. }
+        assert (Hgood : good e) by (apply IHe; try assumption; rewrite Hx; assumption).
+        intros g Hg. cbn [size] in Hg. rewrite Hx. change (rank_x false (EAt false e)) with 1. cbn [gprint size]. rewrite Hx.
+        assert (P : PS (pexpr g) (S (size e)) (wrap (pol_at pol e) (pr e)) e 0).
+        { apply child_parses; try lia; assumption. }
         assert (A1 : forall f rest, S (size e) < f -> follow 1 rest ->
-                   p_implicit m nm env (pexpr g) f ((TAt :: pr e) ++ rest) = Some (EAt false e, rest)).
+                   p_implicit m nm env (pexpr g) f ((TAt :: wrap (pol_at pol e) (pr e)) ++ rest) = Some (EAt false e, rest)).
         { intros f rest Hfu Hfo. cbn [app p_implicit].
           rewrite (ps_primary _ _ _ _ _ _ _ _ P ltac:(lia) f _ Hfu) by (eapply follow_mono; [|exact Hfo]; lia).
           reflexivity. }
         assert (A2 : forall f rest, S (size e) < f -> follow 2 rest ->
-                   p_range m nm env (pexpr g) f ((TAt :: pr e) ++ rest) = Some (EAt false e, rest)).
+                   p_range m nm env (pexpr g) f ((TAt :: wrap (pol_at pol e) (pr e)) ++ rest) = Some (EAt false e, rest)).
         { intros f rest Hfu Hfo. apply lift_range; [exact Hfo|]. apply A1; [exact Hfu|]. eapply follow_mono; [|exact Hfo]; lia. }
         apply Parses_of_tight; [lia|intro; lia|intros _; exact A1|intros _; exact A2|].
         intros f rest Hfu Hfo. apply lift_power; [exact I|apply A2; assumption].
     - (* ESpill *)
       negb_false. unfold xl_call_ok in *.
-      match goal with H : bad_child _ _ = false |- _ => cbn [bad_child] in H; rename H into Hr end.
+      match goal with H : bad_child_with _ _ _ = false |- _ => cbn [bad_child_with] in H; rename H into Hr end.
       destruct xl eqn:Hx; cbn [negb andb orb] in *.
       + (* xlsx form: _xlfn.ANCHORARRAY(e) *)
         negb_false.
-        apply good_primary; [rewrite Hx; reflexivity|intro rest; cbn [print]; rewrite Hx; split; exact I|].
-        intros g fu rest Hg Hfu _. cbn [size] in Hg, Hfu. cbn [print]. rewrite Hx.
+        apply good_primary; [rewrite Hx; reflexivity|intro rest; cbn [gprint]; rewrite Hx; split; exact I|].
+        intros g fu rest Hg Hfu _. cbn [size] in Hg, Hfu. cbn [gprint]. rewrite Hx.
         assert (HA : args_then_rparen m (pexpr g) fu (join (sep_token (parse_arg_sep m)) (map pr [e]) ++ TRParen :: rest) = Some ([e], rest)).
         { apply args_then_rparen_ok; [cbn [length]; lia|destruct e; try reflexivity; discriminate|].
           eapply args_good with (args := [e]).
@@ -408,45 +501,49 @@ Section Main.
         change (text_eqb t_xlfn_anchor t_xlfn_lambda) with false. cbn [orb].
         rewrite HA. change (text_eqb t_xlfn_anchor t_xlfn_single) with false.
         change (text_eqb t_xlfn_anchor t_xlfn_anchor) with true. reflexivity.
-      + apply ltb_false in Hr.
-        intros g Hg. cbn [size] in Hg. rewrite Hx. change (rank_x false (ESpill e)) with 1. cbn [print size]. rewrite Hx.
-        assert (P : PS (pexpr g) (S (size e)) (pr e) e 0).
-        { eapply Parses_weaken; [exact Hr|]. eapply Parses_weaken_n; [|rewrite <- Hx; apply IHe; try assumption; try lia; rewrite Hx; assumption]. lia. }
-        assert (Hh : head_spec (rank_x false e) (pr e)).
-        { rewrite <- Hx. apply (heads m nm env); try assumption. rewrite Hx. assumption. }
+      + assert (Hq : pol_spill pol e = false -> rank_x xl e <= 0).
+        { intro E. rewrite E in Hr. cbn [negb andb] in Hr. apply ltb_false in Hr. rewrite Hx. exact Hr. }
+        assert (Hgood : good e) by (apply IHe; try assumption; rewrite Hx; assumption).
+        assert (Hnb : no_bad_with pol xl e = true) by (rewrite Hx; assumption).
+        intros g Hg. cbn [size] in Hg. rewrite Hx. change (rank_x false (ESpill e)) with 1. cbn [gprint size]. rewrite Hx.
+        assert (P : PS (pexpr g) (S (size e)) (wrap (pol_spill pol e) (pr e)) e 0).
+        { apply child_parses; try lia; assumption. }
+        assert (Hat : forall rest, not_at (wrap (pol_spill pol e) (pr e) ++ rest)).
+        { intro rest. destruct (pol_spill pol e) eqn:E; cbn [wrap]; [exact I|].
+          eapply head_not_at; [apply Hq; reflexivity|]. apply (heads m nm env pol); assumption. }
         assert (A1 : forall f rest, S (size e) < f -> follow 1 rest ->
-                   p_implicit m nm env (pexpr g) f ((pr e ++ [TSpill]) ++ rest) = Some (ESpill e, rest)).
+                   p_implicit m nm env (pexpr g) f ((wrap (pol_spill pol e) (pr e) ++ [TSpill]) ++ rest) = Some (ESpill e, rest)).
         { intros f rest Hfu Hfo. rewrite <- app_assoc. cbn [app].
           pose proof (ps_primary _ _ _ _ _ _ _ _ P ltac:(lia) f (TSpill :: rest) Hfu ltac:(cbn [follow cont_level]; lia)) as E.
-          pose proof (head_not_at (rank_x false e) (pr e) (TSpill :: rest) ltac:(lia) Hh) as Hat.
-          unfold p_implicit. destruct (pr e ++ TSpill :: rest) as [|t r] eqn:Ets.
+          pose proof (Hat (TSpill :: rest)) as Hat'.
+          unfold p_implicit. destruct (wrap (pol_spill pol e) (pr e) ++ TSpill :: rest) as [|t r] eqn:Ets.
           - rewrite E. reflexivity.
           - destruct t; try (rewrite E; reflexivity). contradiction. }
         assert (A2 : forall f rest, S (size e) < f -> follow 2 rest ->
-                   p_range m nm env (pexpr g) f ((pr e ++ [TSpill]) ++ rest) = Some (ESpill e, rest)).
+                   p_range m nm env (pexpr g) f ((wrap (pol_spill pol e) (pr e) ++ [TSpill]) ++ rest) = Some (ESpill e, rest)).
         { intros f rest Hfu Hfo. apply lift_range; [exact Hfo|]. apply A1; [exact Hfu|]. eapply follow_mono; [|exact Hfo]; lia. }
         apply Parses_of_tight; [lia|intro; lia|intros _; exact A1|intros _; exact A2|].
         intros f rest Hfu Hfo. apply lift_power; [|apply A2; assumption].
-        rewrite <- app_assoc. eapply head_not_sign; [|exact Hh]. lia.
+        rewrite <- app_assoc. apply child_head; try assumption. intro E. specialize (Hq E). lia.
     - (* ECmp *)
-      negb_false. match goal with H : bad_child _ _ = false |- _ => cbn [bad_child] in H; apply orb_false_iff in H as [Hrl Hrr] end.
-      apply ltb_false in Hrl, Hrr.
+      negb_false. match goal with H : bad_child_with _ _ _ = false |- _ => cbn [bad_child_with] in H; apply orb_false_iff in H as [Hrl Hrr] end.
       intros g Hg. cbn [size] in Hg.
-      apply (Parses_binary m nm env (pexpr g) 5 (BCmp op) (TCompare op) (size e1) (size e2) (pr e1) (pr e2) e1 e2); try reflexivity; try lia.
-      + eapply Parses_weaken; [|apply IHe1; try assumption; lia]. exact Hrl.
-      + eapply Parses_weaken; [|apply IHe2; try assumption; lia]. exact Hrr.
+      apply (Parses_binary m nm env (pexpr g) 5 (BCmp op) (TCompare op) (size e1) (size e2)
+               (wrap (pol_cmp_l pol e1) (pr e1)) (wrap (pol_cmp_r pol e2) (pr e2)) e1 e2); try reflexivity; try lia.
+      + apply child_parses; try lia; [apply IHe1; assumption|]. intro E. rewrite E in Hrl. cbn [negb andb] in Hrl. apply ltb_false in Hrl. exact Hrl.
+      + apply child_parses; try lia; [apply IHe2; assumption|]. intro E. rewrite E in Hrr. cbn [negb andb] in Hrr. apply ltb_false in Hrr. exact Hrr.
     - (* ENeg *)
-      negb_false. match goal with H : bad_child _ _ = false |- _ => cbn [bad_child] in H; rename H into Hr end.
-      assert (Hq : neg_parens e = false -> rank_x xl e <= 2).
+      negb_false. match goal with H : bad_child_with _ _ _ = false |- _ => cbn [bad_child_with] in H; rename H into Hr end.
+      assert (Hq : pol_neg pol e = false -> rank_x xl e <= 2).
       { intro E. rewrite E in Hr. cbn [negb andb] in Hr. apply ltb_false in Hr. exact Hr. }
       apply good_neg; [apply IHe; assumption|exact Hq|apply child_head; assumption].
     - (* EPct *)
-      negb_false. match goal with H : bad_child _ _ = false |- _ => cbn [bad_child] in H; rename H into Hr end.
-      assert (Hq : rank_x xl e <= 3).
-      { destruct e; cbn [rank_x rank rank_of_kind kind_of] in *; try lia; try (destruct xl; lia); apply ltb_false in Hr; lia. }
-      intros g Hg. cbn [size] in Hg. change (rank_x xl (EPct e)) with 3. cbn [print size].
-      assert (P : PS (pexpr g) (S (size e)) (pr e) e 3).
-      { eapply Parses_weaken; [exact Hq|]. eapply Parses_weaken_n; [|apply IHe; try assumption; lia]. lia. }
+      negb_false. match goal with H : bad_child_with _ _ _ = false |- _ => cbn [bad_child_with] in H; rename H into Hr end.
+      assert (Hq : pol_pct pol e = false -> rank_x xl e <= 3).
+      { intro E. rewrite E in Hr. cbn [negb andb] in Hr. apply ltb_false in Hr. exact Hr. }
+      intros g Hg. cbn [size] in Hg. change (rank_x xl (EPct e)) with 3. cbn [gprint size].
+      assert (P : PS (pexpr g) (S (size e)) (wrap (pol_pct pol e) (pr e)) e 3).
+      { apply child_parses; try lia; [apply IHe; assumption|exact Hq]. }
       apply Parses_of_tight; [lia|intro; lia|intro; lia|intro; lia|].
       intros f rest Hfu Hfo. rewrite <- app_assoc. cbn [app].
       rewrite (ps_power _ _ _ _ _ _ _ _ P ltac:(lia) f (TPercent :: rest) Hfu) by (cbn [follow cont_level]; lia).
@@ -456,7 +553,7 @@ Section Main.
 
   (* ---- the theorem -------------------------------------------------------------------------- *)
   Theorem roundtrip e :
-    image m nm env e = true -> fragment e = true -> no_bad xl e = true -> lower_stable nm e = true ->
+    image m nm env e = true -> fragment e = true -> no_bad_with pol xl e = true -> lower_stable nm e = true ->
     forall f, size e + 2 <= f -> parse_fuel m nm env f (pr e) = Some (e, []).
   Proof.
     intros Hi Hf Hb Hl f Hfu. unfold parse_fuel. destruct f as [|f']; [lia|]. cbn [p_expr].
@@ -467,10 +564,36 @@ Section Main.
   Qed.
 End Main.
 
-Theorem roundtrip_glued m nm env :
-  forall e, image m nm env e = true -> fragment e = true -> no_bad (pm_xlsx m) e = true -> lower_stable nm e = true ->
+(* every node kind is inside the proved fragment *)
+Lemma fragment_all e : fragment e = true.
+Proof.
+  induction e using ast_rect'; cbn [fragment]; try reflexivity;
+    repeat match goal with
+    | H : fragment _ = true |- _ => rewrite H; clear H
+    end; try reflexivity.
+  all: try (apply forallb_forall; intros x Hx; rewrite Forall_forall in H; apply H; exact Hx).
+  all: cbn [andb]; apply forallb_forall; intros x Hx;
+    match goal with H : Forall _ _ |- _ => rewrite Forall_forall in H; apply H; exact Hx end.
+Qed.
+
+(* the theorem for any parenthesis policy: the printer with policy [pol] round-trips every tree
+   that has no bad pair relative to [pol] *)
+Theorem roundtrip_policy m nm env pol :
+  (forall n, pol_neg pol (ENum n) = false) ->
+  forall e, image m nm env e = true -> no_bad_with pol (pm_xlsx m) e = true -> lower_stable nm e = true ->
+  forall f, size e + 2 <= f -> parse_fuel m nm env f (gprint m nm pol e) = Some (e, []).
+Proof. intros Hn e Hi Hb Hl. apply roundtrip; try assumption. apply fragment_all. Qed.
+
+(* [stringify] as it is *)
+Theorem roundtrip_all m nm env e :
+  image m nm env e = true -> no_bad (pm_xlsx m) e = true -> lower_stable nm e = true ->
+  forall f, size e + 2 <= f -> parse_fuel m nm env f (print m nm e) = Some (e, []).
+Proof. intros Hi Hb Hl. apply (roundtrip_policy m nm env stringify_policy); try assumption. reflexivity. Qed.
+
+Theorem roundtrip_glued m nm env e :
+  image m nm env e = true -> no_bad (pm_xlsx m) e = true -> lower_stable nm e = true ->
   glue_free (pm_rc m) (print m nm e) = true ->
   forall f, size e + 2 <= f -> parse_fuel m nm env f (glue (pm_rc m) (print m nm e)) = Some (e, []).
 Proof.
-  intros e Hi Hf Hb Hl Hg f Hfu. rewrite (GlueProofs.glue_id _ _ Hg). apply roundtrip; assumption.
+  intros Hi Hb Hl Hg f Hfu. rewrite (GlueProofs.glue_id _ _ Hg). apply roundtrip_all; assumption.
 Qed.
